@@ -430,7 +430,7 @@ def binop(I, st, op, a, b, inplace=False):
         ea = st.get(a) if isinstance(a, Ref) else None
         eb = st.get(b) if isinstance(b, Ref) else None
         if models.is_view(st, a) or models.is_view(st, b):
-            raise Unsupported("binary %s on a dictionary view" % op)
+            raise Unsupported("binary %s on a dictionary view / an iterator object" % op)
         if (ea is not None and ea.kind == "nd") or (eb is not None and eb.kind == "nd"):
             if inplace and ea is not None and ea.kind == "nd" and op != "MatMult":
                 # `arr += x` on a numpy array updates the array IN PLACE: every other reference to it sees the new values
